@@ -104,6 +104,8 @@ def _norm_effect(e, ignore_kinds, ignore_calls, ordered=False, store_fields=None
         if isinstance(e[2], tuple) and e[2] and e[2][0] == "ctx":
             return None  # calls on a context-manager object (progress bar) are not market/strategy effects
         return e
+    if e[0] == "on-failure":
+        return None      # compensation handlers are judged by the rollback-exactness rule, not by ledger identity
     if e[0] == "expr":
         return None if "expr" in ignore_kinds else e
     if e[0] == "foreach":
